@@ -10,7 +10,9 @@ python3 tools/rs2lean/gen_c12.py "$(pwd)"
 python3 tools/rs2lean/gen_dispatch.py "$(pwd)"
 python3 tools/rs2lean/locks.py "${VERIF_REPO:-/repo}" lean/TrippyVerif/Gen
 python3 tools/rs2lean/cfglayer.py "${VERIF_REPO:-/repo}" lean/TrippyVerif/Gen
-python3 tools/rs2lean/privacy.py "${VERIF_REPO:-/repo}" lean/TrippyVerif/Gen
+python3 tools/rs2lean/privacy.py "${VERIF_REPO:-/repo}" lean/TrippyVerif/Gen || true
+python3 tools/rs2lean/dispatchcmp.py "${VERIF_REPO:-/repo}" lean/TrippyVerif/Gen || true
+python3 tools/rs2lean/hookfwd.py "${VERIF_REPO:-/repo}" lean/TrippyVerif/Gen || true
 python3 tools/rs2lean/consts.py "${VERIF_REPO:-/repo}" lean/TrippyVerif/Gen lean/TrippyVerif/Gen/Pkt.report.json
 (cd lean && lake build TrippyVerif tvdriver 2>&1 | grep -v "depends on axioms\|does not depend" | tail -20)
 [ -f harness/Cargo.lock ] || cp "${VERIF_REPO:-/repo}/Cargo.lock" harness/Cargo.lock
